@@ -96,6 +96,40 @@ let eval (op : string) (a : string list) : string =
         | MEof -> "!eof" | MErr -> "!err" | MPanic -> "!panic" | MUnmodelled -> "!unmodelled") in
     let (its, _) = dec_prefix decomp (nat_of_int (List.length body)) body in
     "P " ^ p ^ " M " ^ m ^ " E " ^ show_orecs (records its)
+  | "pg", [ops] ->
+    (* page transition system: run the ops, print refcounts and what every ref reads *)
+    let ni s = nat_of_int (int_of_n (n_of_hex s)) in
+    let parse_op (o : string) : op =
+      match String.split_on_char ':' o with
+      | ["nb"] -> ONewBuf
+      | ["np"; b; "f"] -> ONewPage (ni b, None)
+      | ["np"; b; p] -> ONewPage (ni b, Some (ni p))
+      | ["ap"; b; d] -> OAppend (ni b, bytes_of_hex d)
+      | ["rf"; b; segs] ->
+        let segs = if segs = "." || segs = "" then [] else
+            List.map (fun sg -> match String.split_on_char '.' sg with
+                | [p; lo; hi] -> (ni p, (ni lo, ni hi))
+                | _ -> failwith "bad seg") (String.split_on_char ',' segs) in
+        ORef (ni b, segs)
+      | ["ub"; b] -> OUnrefBuf (ni b)
+      | ["ur"; r] -> OUnrefRef (ni r)
+      | _ -> failwith ("bad page op " ^ o) in
+    let ops = List.map parse_op (String.split_on_char ';' ops) in
+    let rec go s i = function
+      | [] -> Ok s
+      | o :: t -> (match step s o with Some s' -> go s' (i + 1) t | None -> Error i) in
+    (match go s0 0 ops with
+     | Error i -> Printf.sprintf "DISABLED:%x" i
+     | Ok s ->
+       let refcs = if s.s_pages = [] then "." else
+           String.concat "," (List.map (fun pg -> Printf.sprintf "%x" (int_of_nat pg.p_refc)) s.s_pages) in
+       let reads = if s.s_refs = [] then "." else
+           String.concat "," (List.mapi (fun i _ ->
+               match read_ref s (nat_of_int i) with
+               | None -> "x"
+               | Some bs -> hex_of_bytes bs) s.s_refs) in
+       refcs ^ " R " ^ reads)
+  | "pgc", [_; _] -> "ok"
   | _ -> "BADCASE"
 
 let () =
